@@ -58,6 +58,8 @@ PROPS = {
         'bounded_standins': [
             {'oracle': 'incan::emit_range', 'cases': 155, 'function': 'emit_range_call (call site of the runtime range) and the lowering of for loops over range',
              'bound': 'exhaustive over range(e), range(s, e), range(s, e, k) x {variable, 0, negative literal, 2, expression} per written argument; one fixed program shape; checks argument positions and the defaults 0 / 1 in the generated call'},
+            {'oracle': 'incan::multifile_index', 'cases': 8, 'function': 'IrCodegen multi-file generation (try_generate_multi_file / _nested): lowering of an IMPORTED module',
+             'bound': 'a helper module with a model and one function next to a main module that imports it, through both multi-file APIs x 4 reads of a field inside the module (list index, str index, list slice, str slice); each must use the runtime helper for the field\'s type'},
             {'oracle': 'incan::emit_slice', 'cases': 287, 'function': 'parser index_or_slice/parse_slice, lowering of Index/Slice, emit_index_expr, emit_slice_expr',
              'bound': 'exhaustive over str/list target x {omitted, variable, 0, -1} start x same end x {omitted, variable, -1, 2} step x compact/spaced spelling, plus 4 index reads, 4 element assignments (list_get_mut) a dict read (dict_get), a nested index `grid[r][c]`, a dict compound assignment 8 reads whose object is a field or a call result (`b.xs[st]`, `word()[st:]`, ..) 2 programs with reads inside two f-strings and 6 further statement contexts (nested assignment target `g[r][c] = v`, `for` over a slice with literal bounds, a list bound to a `match` expression); one fixed program shape; checks the helper and the position of every bound in the generated call'},
         ],
@@ -108,6 +110,8 @@ PROPS = {
              'bound': 'exhaustive over / // % x int/float left x int/float right x 11 forms (plain, plain with a negated left operand, compound on a local / field / list element, const initializer over literals, bare expression statement, inside int(..), parenthesised operands, call result as left operand, body of a lambda with an untyped parameter); fixed program shapes; checks helper, operand order and promotions in the generated call (a folded const must have Python\'s value)'},
             {'oracle': 'incan::static_type', 'cases': 9408, 'function': 'TypeChecker: annotated let / return / call argument of a binary expression',
              'bound': 'exhaustive over 7 operators x int/float operand kinds x int/float annotation x 7 right-operand forms (variable, const, literal, 0, negative literal, parenthesised, double minus) x 4 binding positions (let, return, argument, const initializer) x bare / parenthesised right-hand side x 3 annotation spellings (int / Int / INT); fixed program shapes; accepted iff the annotation is the kind given by the table'},
+            {'oracle': 'incan::multifile_promotion', 'cases': 6, 'function': 'IrCodegen multi-file generation (try_generate_multi_file / _nested): lowering of an IMPORTED module',
+             'bound': 'a helper module with a model and one function next to a main module that imports it, through both multi-file APIs x 3 arithmetic expressions over int / float fields inside the module; int operands of a float operation must be promoted'},
             {'oracle': 'incan::static_type_sources', 'cases': 112, 'function': 'TypeChecker: typing of operands that come out of typed containers and builtins (check_builtin_call zip / enumerate, index, dict value, len)',
              'bound': 'exhaustive over 8 operand sources (zip pair.0 / pair.1, enumerate pair.0 / pair.1, list element int / float, dict value, len()) x 7 operators x int / float annotation; `y: T = SRC <op> 2` accepted iff T is the table kind'},
             {'oracle': 'incan::static_type_nested', 'cases': 1500, 'function': 'TypeChecker on nested arithmetic (check_binary applied recursively through check_expr, Paren, Unary)',
